@@ -95,6 +95,19 @@ def uup_zero_flag(cfg):
                for ca, cb in zip(cfg["u"], cfg["uup"]) for a, b in zip(flat(ca), flat(cb)))
 
 
+def outputs_with_unknown(obs):
+    """names of the observed outputs that contain an unliftable finite value ([1, 0])"""
+    def has(x):
+        if isinstance(x, list):
+            if len(x) == 2 and x[0] == 1 and x[1] == 0:
+                return True
+            return any(has(v) for v in x)
+        if isinstance(x, dict):
+            return any(has(v) for v in x.values())
+        return False
+    return {k for k, v in obs.items() if has(v)}
+
+
 def replay_clauses(prop, cfg):
     """clauses evaluated on the configurations that the design-level model enumerated"""
     def zero_on_boundary():
@@ -171,6 +184,14 @@ def run_property(prop, tier, seed, *, clauses_for, n_quick, n_thorough, gen_kw=N
         v = by_id[e["id"]]
         for cl in e["wanted"]:
             per_clause[cl] = per_clause.get(cl, 0) + 1
+        unknown_out = outputs_with_unknown(e["obs"])
+        for cl in list(v["failing"]):
+            # a clause that touches a finite observation which could not be lifted (true denominator
+            # beyond the lifting bound) cannot be decided exactly: undecided, not failing
+            needs = NEEDS.get(cl) or list(e["obs"].keys())
+            if any(o in unknown_out for o in needs):
+                v["failing"].remove(cl)
+                v.setdefault("undecided", []).append(cl)
         for cl in v["failing"]:
             sig = {"grid_class": cls}
             off = offsets_str(v.get("detail", {}).get(cl))
@@ -214,7 +235,7 @@ def run_property(prop, tier, seed, *, clauses_for, n_quick, n_thorough, gen_kw=N
                      "verdict": by_id[samp["id"]]}],
     }
     return rep.finish(cov, assumptions=list(assumptions) + [
-        "float outputs lifted to rationals (|x-p/q| <= 1e-12 max(1,|x|), q <= 5e5)",
+        "float outputs lifted to rationals (|x-p/q| <= 3e-14 max(1,|x|), q <= 3e4; coincidental lift probability 1.6e-5 per non-rational value)",
         "SphericalGrid3D runs with the rational surrogate metric s(t)=t(4-t)/4 installed harness-side (DESIGN 3.3 D3)"])
 
 
